@@ -3,6 +3,9 @@ pub mod c03;
 pub mod c13;
 pub mod stack;
 pub mod c14;
+pub mod c15;
+pub mod c16;
+pub mod c20;
 pub mod common;
 
 use crate::env::{Env, HarnessError};
@@ -12,7 +15,7 @@ use crate::rng::Rng;
 use crate::scenario::Scenario;
 use common::GenStats;
 
-pub const PROPS: &[&str] = &["C02", "C03", "C13", "C14"];
+pub const PROPS: &[&str] = &["C02", "C03", "C13", "C14", "C15", "C16", "C20"];
 
 pub fn generate(prop: &str, seed: u64, tier: Tier, stats: &mut GenStats) -> Scenario {
     let mut rng = Rng::new(seed);
@@ -21,6 +24,9 @@ pub fn generate(prop: &str, seed: u64, tier: Tier, stats: &mut GenStats) -> Scen
         "C14" => c14::generate(&mut rng, tier, stats),
         "C03" => c03::generate(&mut rng, tier, stats),
         "C13" => c13::generate(&mut rng, tier, stats),
+        "C16" => c16::generate(&mut rng, tier, stats),
+        "C15" => c15::generate(&mut rng, tier, stats),
+        "C20" => c20::generate(&mut rng, tier, stats),
         _ => panic!("unknown property {}", prop),
     };
     sc.seed = seed;
@@ -34,6 +40,9 @@ pub fn check(sc: &Scenario, env: &mut Env) -> Result<Outcome, HarnessError> {
         "C14" => c14::check(sc, env),
         "C03" => c03::check(sc, env),
         "C13" => c13::check(sc, env),
+        "C16" => c16::check(sc, env),
+        "C15" => c15::check(sc, env),
+        "C20" => c20::check(sc, env),
         p => Err(HarnessError(format!("unknown property {}", p))),
     }
 }
